@@ -360,7 +360,7 @@ class Check(object):
 
 
 def regenerate(specs):
-    """run the spec's translator (tools/py2lean.py or tools/py2lean_fn.py) for every spec (paths relative to lean/); returns 'ok' or the reason"""
+    """run the spec's translator (tools/py2lean.py, py2lean_fn.py or py2lean_fields.py) for every spec (paths relative to lean/); returns 'ok' or the reason"""
     status = 'ok'
     for sp in specs:
         spec_path = os.path.join(LEAN, sp)
